@@ -188,8 +188,24 @@ class Builder:
         cands = [c for c in cands if R.well_formed(c)]
         if not cands: return
         plug = self.draw(st.sampled_from(cands))
+        two_step = self.draw(st.integers(0, 2)) == 0
+        if two_step:
+            # launder the constraint first: instantiate the constrained metavariable by a metavariable that carries fewer
+            # constraints (the same id unconstrained, the same id with part of the lists, another id unconstrained) - the
+            # documented machine rejects that - and then, blind, by the concrete violating plug
+            weaker = [R.MV(nd[1]), R.MV(self.draw(st.sampled_from(self.cfg.ids))), R.MV(nd[1], nd[2][:1], nd[3][:1], (), ())]
+            covers = lambda w: set(nd[2]) <= set(w[2]) and set(nd[3]) <= set(w[3]) and set(nd[4]) <= set(w[4]) | set(w[3]) and set(nd[5]) <= set(w[5]) | set(w[3])
+            weaker = [w for w in weaker if not covers(w)]
+            if not weaker: return
+            first = self.draw(st.sampled_from(weaker))
         idx = self.save_pop()
         if idx is None: return
+        if two_step:
+            frag = M.emit(first) + bytes([29, idx, 26, 1, nd[1]]) + bytes([28, 27]) + M.emit(plug) + bytes([29, idx + 1, 26, 1, first[1]])
+            ok = self.emit(frag, 'attack-Instantiate-2step', allow_reject=True)
+            if not ok and not self.dead:
+                self.emit(bytes([29, idx]), allow_reject=False)
+            return
         ok = self.emit(M.emit(plug) + bytes([29, idx, 26, 1, nd[1]]), 'attack-Instantiate', allow_reject=True)
         if not ok and not self.dead:
             self.emit(bytes([29, idx]), allow_reject=False)
@@ -233,6 +249,21 @@ class Builder:
         idx = len(self.m.memory)
         frag = inst_stream(M.emit(body) + bytes([7, k]), pairs) + bytes([28, 29, idx, 12, 26, 2, 0, 1])
         self.emit(frag, 'attack-Mu', allow_reject=True)
+
+    def g_attack_launder(self):
+        """A side condition discharged through a declared constraint, the constraint then laundered away: |- M -> M with
+        M = phi_i{e_fresh x}, Generalization on x (legal: x is declared fresh in M), then - the documented machine rejects
+        here - Instantiate phi_i by a metavariable without that constraint, then by a pattern in which x is free."""
+        if len(self.m.memory) >= 248: return
+        d = self.draw
+        x = d(st.sampled_from(self.cfg.ids)); i = d(st.sampled_from(self.cfg.ids))
+        Mv = R.MV(i, (x,), (), (), ())
+        if not self.emit(refl_stream(Mv) + bytes([22, x]), 'launder-setup', allow_reject=False): return
+        first = d(st.sampled_from([R.MV(i), R.MV(d(st.sampled_from(self.cfg.ids))), R.MV(i, (), (x,), (), ())]))
+        plug = d(st.sampled_from([R.E(x), R.A(R.Y(0), R.E(x)), R.I(R.E(x), R.Y(0))]))
+        idx = len(self.m.memory)
+        frag = bytes([28, 27]) + M.emit(first) + bytes([29, idx, 26, 1, i]) + bytes([28, 27]) + M.emit(plug) + bytes([29, idx + 1, 26, 1, first[1]])
+        self.emit(frag, 'attack-launder', allow_reject=True)
 
     def g_weaken(self):
         t = self.top()
@@ -336,7 +367,7 @@ class Builder:
 
     GADGETS = ['g_push_pattern', 'g_axiom', 'g_refl', 'g_refl', 'g_weaken', 'g_generalize', 'g_generalize',
                'g_substitution', 'g_substitution', 'g_instantiate', 'g_instantiate', 'g_mp', 'g_mp_ready', 'g_mem', 'g_quantifier_inst',
-               'g_attack_generalize', 'g_attack_generalize', 'g_attack_instantiate', 'g_attack_mu']
+               'g_attack_generalize', 'g_attack_generalize', 'g_attack_instantiate', 'g_attack_mu', 'g_attack_launder']
 
     def step(self):
         getattr(self, self.draw(st.sampled_from(self.GADGETS)))()
